@@ -1,5 +1,6 @@
 import XrsVerif.Proofs.PolygonizeLosslessArea
 import XrsVerif.Proofs.PolygonizeLosslessScan
+import XrsVerif.Proofs.PolygonizeLosslessWF
 /-
   C15, losslessness: area and orientation of the polygons `_scan` returns.
 
@@ -306,6 +307,23 @@ theorem scan_area {V : Type} (values : Nat → V) (hrank : Ranked regs (nx * ny)
   intro hring hmem
   obtain ⟨c, hc, e⟩ := List.mem_map.mp hmem
   rw [← e]; exact hn c hc
+
+/-- every ring `_scan` returns is well formed -/
+theorem scan_wf {V : Type} (values : Nat → V) (hrank : Ranked regs (nx * ny))
+    (sc : Scan V)
+    (hsc : (List.range (nx * ny)).foldl (scanStep nx ny regs values) ⟨[], [], 0, [], [], true⟩ = sc) :
+    ∀ i, i < sc.regionDone → ∀ ring ∈ sc.polys.getD i [], ringWellFormed nx ny ring = true := by
+  obtain ⟨cyc, fs, h0⟩ := scan_inv nx ny hnx regs values hrank
+  rw [hsc] at h0
+  have h := h0
+  intro i hi ring hring
+  have hpol : sc.polys.getD i [] = (cyc (i + 1)).map cycRing := by
+    rw [List.getD_eq_getElem?_getD, h.polys, List.getElem?_map, List.getElem?_range hi]; rfl
+  obtain ⟨hg, _⟩ := h.good (i + 1) (by omega) (by omega)
+  rw [hpol] at hring
+  obtain ⟨c, hc, e⟩ := List.mem_map.mp hring
+  rw [← e]
+  exact ringWellFormed_cyc (inRegion_inRaster nx ny regs (i + 1)) (hg.cyc c hc)
 
 end region
 
